@@ -8,8 +8,10 @@ import vlib
 
 RULE = ("seeded federated configurations (gvh/fedlab: supergraph of 3-10 object types + interfaces/unions/enums/input "
         "objects, partitioned into 2-4 subgraphs with single/compound/nested/second keys, @requires, @provides, "
-        "@shareable, shared value types, subgraph-local types; composition contract in harness/fedlab/CONTRACT.md), a "
-        "key-consistent data universe per configuration (nullable positions sometimes null or failing), and 5 "
+        "@shareable, shared value types, subgraph-local types, interfaces declaring @requires fields and lists of "
+        "entities, second-key-only subgraphs; composition contract in harness/fedlab/CONTRACT.md), a key-consistent data "
+        "universe per configuration (nullable positions sometimes null or failing, entity lists with repeats such as "
+        "a,a,b,c,b and nulls in the middle), and 5 "
         "valid-by-construction operations per configuration (nesting across subgraph boundaries, aliases, named and "
         "inline fragments on abstract types, __typename, variables and literals, @skip/@include); a third of the "
         "configurations use a minimal feature set, a third a medium one, a third everything. Each (configuration, "
@@ -43,7 +45,8 @@ def classify(case, detail):
 def distribution(cases):
     d = {"subgraphs": {}, "fetches_per_plan": {}, "entity_fetches": {}, "abstract_selections": 0, "requires_used": 0,
          "provides_used": 0, "ops_with_variables": 0, "ops_with_fragments": 0, "ops_with_directives": 0,
-         "ops_with_aliases": 0, "gateway_reported_errors": 0, "member_order_differs": 0, "knob_tiers": {}}
+         "ops_with_aliases": 0, "requires_field_selected_on_interface": 0, "object_list_selected_on_interface": 0,
+         "engine_panics": 0, "gateway_reported_errors": 0, "member_order_differs": 0, "knob_tiers": {}}
     for c in cases:
         for name, rx in (("subgraphs", r"\(subgraphs (\d+)\)"), ("fetches_per_plan", r"\(fetches (\d+)\)"),
                          ("entity_fetches", r"\(entityfetches (\d+)\)")):
@@ -52,11 +55,14 @@ def distribution(cases):
                 d[name][m.group(1)] = d[name].get(m.group(1), 0) + 1
         for name, tag in (("abstract_selections", "abstract"), ("requires_used", "requires"), ("provides_used", "provides"),
                           ("ops_with_variables", "vars"), ("ops_with_fragments", "frags"), ("ops_with_directives", "dirs"),
-                          ("ops_with_aliases", "aliases")):
+                          ("ops_with_aliases", "aliases"), ("requires_field_selected_on_interface", "ifacerequires"),
+                          ("object_list_selected_on_interface", "ifaceobjlist")):
             if "(%s t)" % tag in c:
                 d[name] += 1
         if "(gwerrors t)" in c:
             d["gateway_reported_errors"] += 1
+        if "(panic t)" in c:
+            d["engine_panics"] += 1
         if "(orderonly t)" in c:
             # informational: same JSON value, member order differs from the CollectFields order
             d["member_order_differs"] += 1
@@ -113,6 +119,8 @@ def run(chk):
         "harness/fedlab: generator and composition contract (CONTRACT.md) -- the planner is only exercised on layouts the generator "
         "emits; SDL printer, planner metadata builder (root/child nodes, keys, requires, provides), S-expression dumper of the "
         "upstream queries, http.RoundTripper",
+        "a panic in an engine goroutine kills the harness worker; the supervising process reports the case under clause no_panic "
+        "with a replay and resumes with the next case (such cases are not shrunk)",
         "the planner is sampled, not modelled: 'for every configuration and operation' holds for the cases run; theorems over Exec.v "
         "(exec_split, entity_join, plan_ok_sound) are the coordinator's and not part of this check yet",
         "subgraphs answer any field their schema declares (also @external ones) -- asking for a non-owned field is caught by "
